@@ -24,11 +24,22 @@ ObsMatches(o, ob) ==
          /\ (o.kind = "syntax" => ob.text = o.msg.text /\ ob.line = o.msg.line)
          /\ (o.kind = "illegal" => ob.ch = o.msg.ch)
 
+\* which part of the outcome differs (the checks of C06 / C16 / C18 / C20 each own some of them)
+OutcomeClause(o, ob) ==
+    IF "names" \in DOMAIN o THEN "outcome.names"
+    ELSE IF o.ok /\ ~ob.ok THEN "outcome.rejected"          \* the specification accepts the text, the code raised
+    ELSE IF ~o.ok /\ ob.ok THEN "outcome.accepted"          \* the specification rejects the text, the code returned a tree
+    ELSE IF o.ok THEN "outcome.tree"
+    ELSE IF ob.kind # o.kind THEN "outcome.kind"
+    ELSE IF o.kind = "syntax" /\ ob.text # o.msg.text THEN "outcome.token"
+    ELSE IF o.kind = "syntax" THEN "outcome.line"
+    ELSE "outcome.char"
+
 TInit == Init /\ tid \in 1..Len(Traces) /\ l = 1 /\ verdict = "run"
 TBegin == /\ verdict = "run" /\ l <= Len(T) /\ Begin(T[l].call) /\ UNCHANGED <<tid, l, verdict>>
 TRun == /\ verdict = "run" /\ (Run \/ Hit)
         /\ LET o == outs'[Len(outs')].o  ob == T[l].obs IN
-           verdict' = IF ~ObsMatches(o, ob) THEN "outcome"
+           verdict' = IF ~ObsMatches(o, ob) THEN OutcomeClause(o, ob)
                       ELSE IF "residue" \in DOMAIN ob /\ ob.residue # res' THEN "residue"
                       ELSE IF "keys" \in DOMAIN ob /\ {ob.keys[j] : j \in 1..Len(ob.keys)} # {cache'[j][1] : j \in 1..Len(cache')} THEN "cachekeys"
                       ELSE "run"
